@@ -84,19 +84,24 @@ def step (side : Side) (ip : Vec K → Vec K → K) (sqrt : K → K) (A : CRS K)
 def cont (maxiter M : Nat) (epsT : K) (t : In K) : Bool :=
   !(decide (maxiter ≤ t.iter) || decide (M ≤ t.j) || !decide (epsT < t.innerRes))
 
-/-- gmres.hpp:201-264: one restart cycle (entered when the stopping test failed) -/
-def cycle (prm : Params K) (ip : Vec K → Vec K → K) (sqrt : K → K) (A : CRS K) (P : Vec K → Vec K) (epsT : K)
-    (st : St K) : St K :=
+/-- gmres.hpp:201-206: the state on entry of the inner loop -/
+def cycleStart (st : St K) : In K :=
   let w := st.w
   let v0 := axpby (inv1 st.normR) w.r 0 (w.v 0)          -- backend::axpby(math::inverse(norm_r), *r, zero, *v[0]);
-  let t0 : In K :=
-    { j := 0, iter := st.iter, innerRes := 0,
-      w := { w with h := { w.h with s := sInit st.normR },  -- std::fill(s.begin(), s.end(), 0); s[0] = norm_r;
-                    v := setF w.v 0 v0 } }
-  let t := doWhile (cont prm.maxiter prm.M epsT) (step prm.pside ip sqrt A P) prm.M t0
+  { j := 0, iter := st.iter, innerRes := 0,
+    w := { w with h := { w.h with s := sInit st.normR },  -- std::fill(s.begin(), s.end(), 0); s[0] = norm_r;
+                  v := setF w.v 0 v0 } }
+
+/-- gmres.hpp:207-241: the inner `while(true) { … if (…) break; }` = `do … while`, fuel `M` -/
+def inner (prm : Params K) (ip : Vec K → Vec K → K) (sqrt : K → K) (A : CRS K) (P : Vec K → Vec K) (epsT : K)
+    (st : St K) : In K :=
+  doWhile (cont prm.maxiter prm.M epsT) (step prm.pside ip sqrt A P) prm.M (cycleStart st)
+
+/-- gmres.hpp:243-264: back substitution and the update of `x` after the inner loop ended in state `t` -/
+def update (side : Side) (P : Vec K → Vec K) (st : St K) (t : In K) : St K :=
   let s := backSubst t.j t.w.h.H t.w.h.s                  -- for (i = j; i --> 0; ) { … }
   let dx := linComb (combList t.j s.get t.w.v.get) 0 t.w.r        -- vector &dx = *r; backend::lin_comb(j, s, v, zero, dx);
-  match prm.pside with
+  match side with
   | .left =>
     { iter := t.iter, normR := st.normR,
       x := axpby 1 dx 1 st.x,                              -- backend::axpby(one, dx, one, x);
@@ -106,6 +111,11 @@ def cycle (prm : Params K) (ip : Vec K → Vec K → K) (sqrt : K → K) (A : CR
     { iter := t.iter, normR := st.normR,
       x := axpby 1 tmp 1 st.x,                             -- backend::axpby(one, tmp, one, x);
       w := { h := { t.w.h with s := s }, r := dx, v := setF t.w.v 0 tmp } }
+
+/-- gmres.hpp:201-264: one restart cycle (entered when the stopping test failed) -/
+def cycle (prm : Params K) (ip : Vec K → Vec K → K) (sqrt : K → K) (A : CRS K) (P : Vec K → Vec K) (epsT : K)
+    (st : St K) : St K :=
+  update prm.pside P st (inner prm ip sqrt A P epsT st)
 
 /-- the outer `while(true)` over the states at the `break` test, `fuel = maxiter` -/
 def outer (prm : Params K) (ip : Vec K → Vec K → K) (sqrt : K → K) (A : CRS K) (P : Vec K → Vec K) (f : Vec K)
